@@ -3759,6 +3759,11 @@ async fn main() -> anyhow::Result<()> {
         loop {
             tokio::select! {
                 _ = interval.tick() => {
+                    // fsync_policy = data_only: writes acknowledged before an idle period must
+                    // become durable within one wal_flush_interval_ms.
+                    if let Err(e) = engine_for_flush.cold_tier().sync_wal_if_unsynced() {
+                        error!(error = %e, "Periodic WAL fsync failed");
+                    }
                     match engine_for_flush.flush_hot_tier(false) {
                         Ok(count) if count > 0 => {
                             info!(docs_flushed = count, "Background flush completed");
